@@ -242,7 +242,13 @@ def main(argv=None):
     cov['bounded_labelled_not_proved'] = True
     cov['unreached_clauses'] = spec.get('unreached', [])
     cov['notes'] = notes
-    cov['explanation'] = spec.get('explanation', '')
+    cov['explanation'] = spec.get('explanation') or (
+        'Contracts (pre/postconditions, invariants, frames) are stated on the real '
+        'functions of /repo in sidecar files; verification conditions are generated '
+        'from the current source by pyvc and discharged by z3/cvc5 (coverage.'
+        'obligations/discharged, per-obligation results in obligation_results); '
+        'clauses outside the provable subset are decided by bounded run-time '
+        'contract drivers listed in coverage.bounded (never counted as proved).')
     cov['known_findings_reported'] = sorted(seen)
     cov['violations_detail'] = [
         {k: v.get(k) for k in ('obligation', 'what', 'key', 'decider',
